@@ -262,8 +262,9 @@ def polDelAll (on : Bool) (p : Pol) (m : Met) : List (Hash × Int) → Pol × Me
 `none` = this outcome is impossible.  The constraints are those every run of the real
 `Add` satisfies whatever the sample and the estimates are (proved for the exact policy
 model in `RV/Proofs/Policy*.lean`): too big ⇒ untouched; accounted ⇒ cost update only;
-fits ⇒ admitted without victims; otherwise the victims are removed first and the
-newcomer is added only if it then fits. -/
+fits ⇒ admitted without victims; otherwise the victims — keys that were accounted when `Add`
+started, hence never the incoming key (a key may occur twice: the second removal is a no-op) —
+are removed first and the newcomer is added only if it then fits. -/
 def polAdd (on : Bool) (p : Pol) (m : Met) (k : Hash) (cost : Int)
     (victims : List (Hash × Int)) (added : Bool) : Option (Pol × Met) :=
   if cost > p.maxCost then
@@ -273,6 +274,7 @@ def polAdd (on : Bool) (p : Pol) (m : Met) (k : Hash) (cost : Int)
   | (_, _, false) =>
     if p.maxCost - (p.used + cost) ≥ 0 then
       if victims.isEmpty && added then some (polAddKey on p m k cost) else none
+    else if !(victims.all fun v => p.costs.contains v.1) then none  -- victims are sampled from the accounted keys
     else
       let (p2, m2) := polDelAll on p m victims
       if added then
